@@ -536,6 +536,10 @@ def sprinkle(rng, lines, n):
 
 
 def rand_seq(rng, n):
+    """mostly upper-case bases; one sequence in six carries soft-masked (lower-case) bases and N, which a GFA may hold and which must come back
+    unchanged (added after seeded change C07-6)"""
+    if rng.random() < 0.17:
+        return "".join(rng.choice("ACGTacgtnN") for _ in range(n))
     return "".join(rng.choice("ACGT") for _ in range(n))
 
 
